@@ -27,19 +27,29 @@ type exCase struct {
 	N    int     `json:"n"`
 	Sigs []exSig `json:"sigs"`
 	Seq  uint64  `json:"seq"`
+	// Repeat: guardian list position -> the key of that earlier position (a list with a repeated address)
+	Repeat map[int]int `json:"repeat,omitempty"`
+	Mirror int         `json:"mirror,omitempty"` // 1+i: signature i is given in its high-s form (still valid)
 }
 
-func exList(n int) []ethcommon.Address {
-	out := make([]ethcommon.Address, n)
+func exKey(c exCase, pos int) int {
+	if k, ok := c.Repeat[pos]; ok && k < pos {
+		return k
+	}
+	return pos
+}
+
+func exList(c exCase) []ethcommon.Address {
+	out := make([]ethcommon.Address, c.N)
 	for i := range out {
-		out[i] = vh.Addr(i)
+		out[i] = vh.Addr(exKey(c, i))
 	}
 	return out
 }
 
 func runExVerify(c exCase) (*vh.Violation, vh.Outcome) {
 	out := vh.Outcome{}
-	list := exList(c.N)
+	list := exList(c)
 	body := vh.Body{Timestamp: 1700000000, Nonce: 7, EmitterChain: 2, TargetChain: 0, Emitter: [32]byte{31: 4}, Sequence: c.Seq, CL: 1, Payload: vh.Expand(c.Seq, 40)}
 	bb := vh.RefBody(body)
 	digest := vh.RefDigest(bb)
@@ -47,12 +57,15 @@ func runExVerify(c exCase) (*vh.Violation, vh.Outcome) {
 	bad := false
 	for _, s := range c.Sigs {
 		var r vh.RefSig
-		k := s.Pos
+		k := exKey(c, s.Pos)
 		if s.Key >= 0 {
 			k = s.Key
 			bad = true
 		}
 		copy(r.Sig[:], vh.SignDigest(k, digest[:]))
+		if c.Mirror == len(sigs)+1 {
+			copy(r.Sig[:], vh.MirrorS(r.Sig[:]))
+		}
 		if s.Junk != 0 {
 			copy(r.Sig[:], vh.Expand(s.Junk, 65))
 			bad = true
@@ -156,6 +169,16 @@ func genExCase(t *rapid.T) exCase {
 		case "append-255":
 			c.Sigs = append(c.Sigs, exSig{Pos: 255, Key: 275, Idx: -1})
 		}
+	}
+	if c.N >= 2 && rapid.IntRange(0, 3).Draw(t, "repeats") == 0 {
+		c.Repeat = map[int]int{}
+		for j := rapid.IntRange(1, 2).Draw(t, "nrep"); j > 0; j-- {
+			a := rapid.IntRange(1, c.N-1).Draw(t, "ra")
+			c.Repeat[a] = rapid.IntRange(0, a-1).Draw(t, "rb")
+		}
+	}
+	if len(c.Sigs) > 0 && rapid.IntRange(0, 4).Draw(t, "mirror") == 0 {
+		c.Mirror = 1 + rapid.IntRange(0, len(c.Sigs)-1).Draw(t, "mi")
 	}
 	return c
 }
